@@ -5,6 +5,7 @@ All theorems are about the *generated* kernels `Rubato.Gen.Fast.interp_*` (trans
 /repo/src/asynchro_fast.rs on every run) instantiated at exact arithmetic (ρ = σ = ℚ).
 -/
 import RubatoModel.Generated
+import RubatoProofs.Async.Stream
 import Mathlib.Tactic.Ring
 import Mathlib.Tactic.NormNum
 import Mathlib.Algebra.BigOperators.Group.Finset.Basic
@@ -139,5 +140,63 @@ theorem window_fits (d : Degree) :
 example : Fast.interp_septic (1/2 : ℚ) (fun k => ((k : ℚ) - 3)^7) = (1/2)^7 := by
   have h := septic_reproduces (fun i => if i = 7 then 1 else 0) (1/2)
   simpa [poly7] using h
+
+end Rubato.C08
+
+/-! ### Stream corollary: a polynomial input is reproduced at the evaluation instants, for every ratio and chunking -/
+
+namespace Rubato.C08
+open Rubato Rubato.Gen Rubato.Stream
+
+/-- reproduction on nodes shifted by an arbitrary `a` (the window sits at `⌊τ⌋`) -/
+theorem septic_reproduces_shift (c : Fin 8 → ℚ) (a x : ℚ) :
+    Fast.interp_septic x (fun k => poly7 c (a + (k : ℚ) - 3)) = poly7 c (a + x) := by
+  simp only [Fast.interp_septic, SNum.ofCtl, RNum.lit, poly7]
+  ring
+
+theorem cubic_reproduces_shift (c : Fin 4 → ℚ) (a x : ℚ) :
+    Fast.interp_cubic x (fun k => poly3 c (a + (k : ℚ) - 1)) = poly3 c (a + x) := by
+  simp only [Fast.interp_cubic, SNum.ofCtl, RNum.lit, poly3]
+  ring
+
+theorem linear_reproduces_shift (c : Fin 2 → ℚ) (a x : ℚ) :
+    Fast.interp_lin x (fun k => poly1 c (a + (k : ℚ))) = poly1 c (a + x) := by
+  simp only [Fast.interp_lin, poly1]
+  ring
+
+/-- the stream specification of the septic resampler reproduces a degree-7 polynomial wherever its 8-sample window
+carries that polynomial -/
+theorem fastSpec_septic_reproduces (c : Fin 8 → ℚ) (xz : ℤ → ℚ) (τ : ℚ)
+    (h : ∀ k : ℕ, k < 8 → xz (⌊τ⌋ - 3 + (k : ℤ)) = poly7 c (((⌊τ⌋ - 3 + (k : ℤ) : ℤ)) : ℚ)) :
+    fastSpec .septic xz τ = poly7 c τ := by
+  unfold fastSpec
+  have hw : Fast.fastWindow .septic = (3, 8, .septic) := rfl
+  rw [fastKernel_congr .septic _ _ (fun k => poly7 c ((⌊τ⌋ : ℚ) + (k : ℚ) - 3))]
+  · simp only [fastKernel, hw]
+    rw [septic_reproduces_shift c (⌊τ⌋ : ℚ) (τ - (⌊τ⌋ : ℤ))]
+    congr 1; ring
+  · intro k hk
+    have hk8 : k < 8 := hk
+    simp only [hw]
+    have e : (⌊τ⌋ - ((3 : ℕ) : ℤ) + (k : ℤ)) = ⌊τ⌋ - 3 + (k : ℤ) := by norm_num
+    rw [e, h k hk8]
+    congr 1; push_cast; ring
+
+/-- **C08 for streams (septic)**: FastFixedIn/Out with `Septic`, any ratio, any chunking: every output frame whose window
+lies on samples of a polynomial `p` of degree ≤ 7 equals `p` at the frame's evaluation instant `−4 + (j+1)/ratio`. -/
+theorem septic_stream_reproduces_polynomial {kind : AKind} (hk : kind.isSinc = false) {r maxRel : ℚ}
+    {sint : SincInterp} {ip : Interp ℚ} {chunk : ℕ} {s0 s : AState ℚ ℚ} {X O : List ℚ}
+    (hinit : AState.init kind r maxRel .septic sint ip chunk 1 = .ok s0)
+    (hc : kind.isFixedIn = false → 0 < chunk) (hrun : Run s0 s X O) (c : Fin 8 → ℚ) (j : ℕ) (hj : j < O.length)
+    (hwin : ∀ k : ℕ, k < 8 →
+      Xz X (⌊(-((Lof kind ip / 2 : ℕ) : ℚ) + ((j : ℚ) + 1) / r)⌋ - 3 + (k : ℤ)) =
+        poly7 c (((⌊(-((Lof kind ip / 2 : ℕ) : ℚ) + ((j : ℚ) + 1) / r)⌋ - 3 + (k : ℤ) : ℤ)) : ℚ)) :
+    O.getD j 0 = poly7 c (-((Lof kind ip / 2 : ℕ) : ℚ) + ((j : ℚ) + 1) / r) := by
+  have hev : kind = .sincOut → 2 ∣ ip.len := by intro h; rw [h] at hk; simp [AKind.isSinc] at hk
+  have hloc : kind.isSinc = true → Local ip := by intro h; rw [hk] at h; cases h
+  have := stream_spec_ext hinit hc hev hloc hrun [] j hj
+  rw [this, List.append_nil]
+  simp only [specOf, hk, Bool.false_eq_true, if_false]
+  exact fastSpec_septic_reproduces c (Xz X) _ hwin
 
 end Rubato.C08
